@@ -12,10 +12,9 @@ reading of an `n`-bit field; `Dy.val ⟨m, e⟩ = m·2^e : ℚ`.  A decoder argu
 `u` or the signed value `toSigned bits u` that `struct.unpack` produces — every `decode_spec` covers both.
 All statements are for ALL words / byte strings (no size bound other than the width of the code).
 
-Three statements of the property are FALSE on the code as it is; they are proved in the partial form given here, their
+Two statements of the property are FALSE on the code as it is; they are proved in the partial form given here, their
 negations are proved on a witness, and they are registered as known findings in `known_findings.d/C07.json`:
-* code 50 (`F8`): only `from50_decode_spec_partial` (exponent field 0 … 1023);
-* `RepCode.readBytes(70, ·)` raises for every negative value (`readBytes70_negative_raises`);
+* code 50 (`F8-from50-exponent-mask`): only `from50_decode_spec_partial` (exponent field 0 … 1023);
 * `to68` clamps `v ≤ -2^127` to a word that decodes to `-2^-129`; hence `from68_to68_partial` excludes `0x80000000`.
 -/
 namespace TD.C07
@@ -123,6 +122,35 @@ theorem from68_to68_fails_at_min :
     from68 0x80000000 = .fin ⟨-8388608, 104⟩ ∧ to68 (-8388608) 104 = 0xFFC00000 ∧
     from68 0xFFC00000 = .fin ⟨-4194304, -151⟩ := by decide
 
+/-- **Code 68, canonical-word lemma (precise equivalence)**: `to68 (from68 u) = u` holds exactly for the canonical
+words (`Canon68`: positive — top fraction bit set, or exponent field 0 with a non-zero fraction, or the zero word
+`0x40000000`; negative — fraction in `1 … 2^22`, or exponent field 255 with a fraction above `2^22`); every other
+word is re-encoded to a different (normalised) word of the same value (`from68_to68_partial`). -/
+theorem to68_from68_fixed_iff (u : Nat) (hu : u < 2 ^ 32) :
+    (∃ d, from68 (u : Int) = .fin d ∧ to68 d.m d.e = u) ↔ Canon68 (fld u 31 1) (fld u 23 8) (fld u 0 23) := by
+  have hd := from68_dy (u : Int)
+  rw [low64_natCast u (Nat.lt_of_lt_of_le hu (by decide))] at hd
+  have hs : fld u 31 1 ≤ 1 := by unfold fld; omega
+  have hE : fld u 23 8 < 256 := by unfold fld; omega
+  have hF : fld u 0 23 < 8388608 := by unfold fld; omega
+  have hdec : fld u 31 1 * 2147483648 + fld u 23 8 * 8388608 + fld u 0 23 = u := by
+    unfold fld; simp only [Nat.reducePow, Nat.div_one] at hu ⊢; omega
+  have key := reenc_fixed_iff _ _ _ hs hE hF
+  rw [hdec] at key
+  unfold reenc at key
+  constructor
+  · rintro ⟨d, h1, h2⟩
+    rw [hd] at h1
+    cases h1
+    exact key.1 h2
+  · intro hc
+    exact ⟨_, hd, key.2 hc⟩
+
+example : Canon68 (fld 0xBBB38000 31 1) (fld 0xBBB38000 23 8) (fld 0xBBB38000 0 23) := by
+  unfold Canon68; decide
+example : ¬ Canon68 (fld 0x44000001 31 1) (fld 0x44000001 23 8) (fld 0x44000001 0 23) := by
+  unfold Canon68; decide
+
 /-- the range in which `to68` neither clamps nor depresses the mantissa: `2^-129 ≤ |m·2^e| < 2^127`, expressed
 through the exponent that `frexp` returns -/
 def InRange68 (m e : Int) : Prop := m ≠ 0 ∧ -128 ≤ frexpExp m e ∧ frexpExp m e ≤ 127
@@ -177,14 +205,27 @@ theorem from70_decode_spec (u : Nat) (hu : u < 2 ^ 32) (w : Int) (hw : IsArg 32 
   have : fld u 0 32 = u := by unfold fld; simp only [Nat.pow_zero, Nat.div_one]; exact Nat.mod_eq_of_lt hu
   rw [this, Dy.val_mk]
 
-/-- **Code 70 through `RepCode.readBytes`**: the public read path raises `OverflowError` for a negative value
-(`FF 66 C0 00` = -153.25) because `STRUCT_RC_70` unpacks a signed int and `cRepCode.from70` takes an unsigned one;
-non-negative values are fine (finding `C07-readBytes70-negative`). -/
-theorem readBytes70_negative_raises :
-    readBytes 70 [0xFF, 0x66, 0xC0, 0x00] = .error .overflowError ∧
-    readBytes 70 [0x00, 0x99, 0x40, 0x00] = .ok (.flt (.fin ⟨10043392, -16⟩)) ∧
-    pFrom 70 (toSigned 32 0xFF66C000) = .ok (.flt (.fin ⟨-10043392, -16⟩)) := by
-  refine ⟨by rfl, by rfl, by rfl⟩
+/-- **Code 70 through `RepCode.readBytes`** (the public read path: `struct.unpack('>I')`, then the Cython
+`from70(unsigned int)`): every four bytes decode to `twos32(word)/2^16`, negative values included
+(the former finding `C07-readBytes70-negative`, fixed in /repo by `STRUCT_RC_70 = STRUCT_RC_UINT_4`). -/
+theorem readBytes70_decode_spec (b0 b1 b2 b3 : Nat) (h0 : b0 < 256) (h1 : b1 < 256) (h2 : b2 < 256) (h3 : b3 < 256) :
+    ∃ d, readBytes 70 [b0, b1, b2, b3] = .ok (.flt (.fin d)) ∧
+      d.val = (twos 32 (((b0 * 256 + b1) * 256 + b2) * 256 + b3) : ℚ) * (2 : ℚ) ^ (-16 : ℤ) := by
+  have hu : ((b0 * 256 + b1) * 256 + b2) * 256 + b3 < 2 ^ 32 := by simp only [Nat.reducePow]; omega
+  obtain ⟨d, hd, hv⟩ := from70_decode_spec _ hu _ (Or.inl rfl)
+  refine ⟨d, ?_, hv⟩
+  have hw : beWord [b0, b1, b2, b3] = ((b0 * 256 + b1) * 256 + b2) * 256 + b3 := by
+    simp [beWord]
+  have hok : cArgOk 70 ((((b0 * 256 + b1) * 256 + b2) * 256 + b3 : Nat) : Int) = true := by
+    simp only [Nat.reducePow] at hu
+    simp only [cArgOk, decide_eq_true_eq]
+    omega
+  simp only [readBytes, lisSize, structSigned, rcFrom, cFrom, pFrom, hw]
+  push_cast at hok hd ⊢
+  simp [hok, hd]
+
+example : readBytes 70 [0xFF, 0x66, 0xC0, 0x00] = .ok (.flt (.fin ⟨-10043392, -16⟩)) ∧
+    readBytes 70 [0x00, 0x99, 0x40, 0x00] = .ok (.flt (.fin ⟨10043392, -16⟩)) := ⟨by rfl, by rfl⟩
 
 /-! ## RP66V1 Appendix B -/
 
@@ -220,6 +261,83 @@ theorem obname_len_helper_agrees (bs : List Nat) (i j : Nat) (o : ObName) (wf : 
   obname_len_agrees bs i j o wf h
 
 example : OBNAME [0x80, 1, 2, 3, 0x41, 0x42, 0x43, 0x44] 0 = .ok (⟨1, 2, [0x41, 0x42, 0x43]⟩, 7) := by rfl
+
+/-- **Integer codes SSHORT, USHORT, STATUS, SNORM, UNORM, SLONG, ULONG — decode_spec + consumes_exactly**: the `n`
+bytes at the index, big-endian, two's complement for the signed codes; exactly `n` bytes consumed; `IndexError`
+exactly when fewer than `n` bytes remain (`byteAt bs k` is byte `k` of the buffer). -/
+theorem rp66_int_decode_spec (bs : List Nat) (i : Nat) (wf : Bytes.wf bs) :
+    SSHORT bs i = (if i + 1 ≤ bs.length then .ok (twos 8 (byteAt bs i), i + 1) else .error .indexError) ∧
+    USHORT bs i = (if i + 1 ≤ bs.length then .ok (byteAt bs i, i + 1) else .error .indexError) ∧
+    STATUS bs i = USHORT bs i ∧
+    SNORM bs i = (if i + 2 ≤ bs.length then .ok (twos 16 (byteAt bs i * 256 + byteAt bs (i + 1)), i + 2)
+      else .error .indexError) ∧
+    UNORM bs i = (if i + 2 ≤ bs.length then .ok (byteAt bs i * 256 + byteAt bs (i + 1), i + 2)
+      else .error .indexError) ∧
+    SLONG bs i = (if i + 4 ≤ bs.length then
+        .ok (twos 32 (((byteAt bs i * 256 + byteAt bs (i + 1)) * 256 + byteAt bs (i + 2)) * 256 + byteAt bs (i + 3)), i + 4)
+      else .error .indexError) ∧
+    ULONG bs i = (if i + 4 ≤ bs.length then
+        .ok (((byteAt bs i * 256 + byteAt bs (i + 1)) * 256 + byteAt bs (i + 2)) * 256 + byteAt bs (i + 3), i + 4)
+      else .error .indexError) :=
+  ⟨sshort_spec bs i, (ushort_spec bs i).1, (ushort_spec bs i).2, snorm_spec bs i, unorm_spec bs i wf,
+    (slong_ulong_spec bs i).1, (slong_ulong_spec bs i).2⟩
+
+example : SNORM [9, 0xFF, 0x67] 1 = .ok (-153, 3) ∧ SLONG [0xFF, 0xFF, 0xFF, 0x67] 0 = .ok (-153, 4) ∧
+    SSHORT [0x99] 0 = .ok (-103, 1) ∧ ULONG [0, 0, 0, 0x99] 1 = .error .indexError := ⟨by rfl, by rfl, by rfl, by rfl⟩
+
+/-- **DTIME, decode_spec + consumes_exactly** (B.21): eight bytes — year − 1900, time zone (high nibble) and month
+(low nibble), day, hour, minute, second, milliseconds (2 bytes, big-endian); `IndexError` exactly when fewer than
+eight bytes remain. -/
+theorem dtime_decode_spec (bs : List Nat) (i : Nat) (wf : Bytes.wf bs) :
+    DTIME bs i = if i + 8 ≤ bs.length then
+        .ok (⟨byteAt bs i + 1900, byteAt bs (i + 1) / 16, byteAt bs (i + 1) % 16, byteAt bs (i + 2), byteAt bs (i + 3),
+              byteAt bs (i + 4), byteAt bs (i + 5), byteAt bs (i + 6) * 256 + byteAt bs (i + 7)⟩, i + 8)
+      else .error .indexError := dtime_spec bs i wf
+
+example : DTIME [0x57, 0x14, 0x13, 0x0F, 0x14, 0x2B, 0x00, 0x21] 0 = .ok (⟨1987, 1, 4, 19, 15, 20, 43, 33⟩, 8) := by rfl
+
+/-- **ASCII, decode_spec** (B.20): a UVARI length `n` (occupying `k` bytes) and the next `n` bytes. -/
+theorem ascii_decode_spec (bs : List Nat) (i : Nat) (wf : Bytes.wf bs) :
+    ASCII bs i = match uvariSpec bs i with
+      | none => .error .indexError
+      | some (n, k) => if n > bs.length - (i + k) then .error .indexError
+                       else .ok ((bs.drop (i + k)).take n, i + k + n) := ascii_spec bs i wf
+
+/-- **ASCII, consumes_exactly**: a decoded string of length `n` consumed the `k` bytes of its UVARI length
+(`k = UVARI_len`) plus `n`, all inside the buffer. -/
+theorem ascii_consumes_exactly (bs : List Nat) (i j : Nat) (v : List Nat) (wf : Bytes.wf bs)
+    (h : ASCII bs i = .ok (v, j)) :
+    ∃ k, uvariSpec bs i = some (v.length, k) ∧ j = i + k + v.length ∧ j ≤ bs.length ∧
+      v = (bs.drop (i + k)).take v.length ∧ UVARI_len bs (i : Int) = .ok k := ascii_consumes bs i j v wf h
+
+example : ASCII [0x80, 0x03, 65, 66, 67, 9] 0 = .ok ([65, 66, 67], 5) := by rfl
+
+/-- **IDENT / UNITS, decode_spec**: `UNITS` is read exactly like `IDENT` (disallowed characters are only logged):
+one length byte `n`, then `n` bytes; `IndexError` exactly when they are not all there. -/
+theorem ident_units_decode_spec (bs : List Nat) (i : Nat) :
+    UNITS bs i = IDENT bs i ∧
+    IDENT bs i = (match bs[i]? with
+      | none => .error .indexError
+      | some n => if n > bs.length - (i + 1) then .error .indexError
+                  else .ok ((bs.drop (i + 1)).take n, i + 1 + n)) := ⟨rfl, ident_spec bs i⟩
+
+/-- **OBNAME, decode_spec + consumes_exactly** (B.23): ORIGIN (a UVARI of `k` bytes), copy number (one byte),
+IDENT; consumed `k + 1 + 1 + len(identifier)` bytes, all inside the buffer. -/
+theorem obname_consumes_exactly (bs : List Nat) (i j : Nat) (o : ObName) (wf : Bytes.wf bs)
+    (h : OBNAME bs i = .ok (o, j)) :
+    ∃ k, uvariSpec bs i = some (o.o, k) ∧ bs[i + k]? = some o.c ∧ IDENT bs (i + k + 1) = .ok (o.i, j) ∧
+      j = i + k + 1 + 1 + o.i.length ∧ j ≤ bs.length := obname_consumes bs i j o wf h
+
+/-- **OBJREF, decode_spec + consumes_exactly** (B.24): an IDENT (object type) followed by an OBNAME; the bytes
+consumed are `IDENT_len` plus `OBNAME_len` at the following index. -/
+theorem objref_consumes_exactly (bs : List Nat) (i j : Nat) (t : List Nat) (o : ObName) (wf : Bytes.wf bs)
+    (h : OBJREF bs i = .ok ((t, o), j)) :
+    IDENT bs i = .ok (t, i + 1 + t.length) ∧ OBNAME bs (i + 1 + t.length) = .ok (o, j) ∧
+      IDENT_len bs (i : Int) = .ok (1 + t.length) ∧
+      OBNAME_len bs ((i + 1 + t.length : Nat) : Int) = .ok (j - (i + 1 + t.length)) ∧ j ≤ bs.length :=
+  objref_consumes bs i j t o wf h
+
+example : OBJREF [2, 70, 71, 0x05, 1, 1, 72] 0 = .ok (([70, 71], ⟨5, 1, [72]⟩), 7) := by rfl
 
 /-- **FSINGL / FDOUBL, decode_spec + consumes_exactly**: four (eight) bytes, big-endian, IEEE-754 fields
 (sign, biased exponent, fraction) incl. subnormals, signed zero, infinities and NaN. -/
